@@ -84,6 +84,13 @@ func c11Compare(before, after map[string]map[string]string, signer string, what 
 			if !ok {
 				return "C11/foreign-resource-removed/" + strings.SplitN(k, ":", 2)[0], fmt.Sprintf("%s signed by %s removed %s of %s", what, short(signer), trunc(k, 60), short(o))
 			}
+			if av != v && strings.HasPrefix(k, "inbox:") {
+				// a notification the signer itself sent to o earlier in the same block: a second send with the same
+				// (recipient, sender, timestamp) replaces it (C18's reading); that is the signer's own message
+				if parts := strings.Split(strings.TrimPrefix(k, "inbox:"), "/"); len(parts) == 3 && parts[1] == signer {
+					continue
+				}
+			}
 			if av != v {
 				return "C11/foreign-resource-changed/" + strings.SplitN(k, ":", 2)[0], fmt.Sprintf("%s signed by %s changed %s of %s", what, short(signer), trunc(k, 60), short(o))
 			}
